@@ -81,6 +81,8 @@ func (f *reflectGoFunction) Call(ctx context.Context, stack []uint64) {
 
 // callGoFunc executes the reflective function by converting params to Go
 // types. The results of the function call are converted back to api.ValueType.
+var float32Type = reflect.TypeOf(float32(0))
+
 func callGoFunc(ctx context.Context, mod api.Module, fn *reflect.Value, stack []uint64) {
 	tp := fn.Type()
 
@@ -108,7 +110,12 @@ func callGoFunc(ctx context.Context, mod api.Module, fn *reflect.Value, stack []
 
 			switch k {
 			case reflect.Float32:
-				val.SetFloat(float64(math.Float32frombits(uint32(raw))))
+				// Set the float32 as it is: widening to float64 and back would quiet a signaling NaN.
+				if f := math.Float32frombits(uint32(raw)); next == float32Type {
+					val.Set(reflect.ValueOf(f))
+				} else {
+					val.SetFloat(float64(f))
+				}
 			case reflect.Float64:
 				val.SetFloat(math.Float64frombits(raw))
 			case reflect.Uint32, reflect.Uint64, reflect.Uintptr:
@@ -126,12 +133,19 @@ func callGoFunc(ctx context.Context, mod api.Module, fn *reflect.Value, stack []
 	for i, ret := range fn.Call(in) {
 		switch ret.Kind() {
 		case reflect.Float32:
-			stack[i] = uint64(math.Float32bits(float32(ret.Float())))
+			// Read the float32 as it is: widening to float64 and back would quiet a signaling NaN.
+			if ret.Type() == float32Type {
+				stack[i] = uint64(math.Float32bits(ret.Interface().(float32)))
+			} else {
+				stack[i] = uint64(math.Float32bits(float32(ret.Float())))
+			}
 		case reflect.Float64:
 			stack[i] = math.Float64bits(ret.Float())
 		case reflect.Uint32, reflect.Uint64, reflect.Uintptr:
 			stack[i] = ret.Uint()
-		case reflect.Int32, reflect.Int64:
+		case reflect.Int32:
+			stack[i] = uint64(uint32(ret.Int())) // an i32 occupies the lower 32 bits: do not sign-extend.
+		case reflect.Int64:
 			stack[i] = uint64(ret.Int())
 		default:
 			panic(fmt.Errorf("BUG: result[%d] has an invalid type: %v", i, ret.Kind()))
